@@ -455,6 +455,12 @@ func RunC03Random(k *fw.Case) {
 				&gen.Assign{Target: "lh.I16", Op: "=", E: il(int64(r.Intn(300)))},
 				&gen.Assign{Target: []string{"lh.In.X", "lh.Pn.X", "lh.In.W"}[r.Intn(3)], Op: "=", E: il(int64(r.Intn(100)))},
 				tvS(id+6, &gen.Ref{Name: "H.I16"}), tvS(id+7, &gen.Ref{Name: "H.In.X"}), tvS(id+8, &gen.Ref{Name: "lh.Pn.X"}),
+				// the host re-points a pointer field while the rule runs: later reads go through the new pointer
+				tvS(id+9, &gen.Ref{Name: "H.Pn.X"}),
+				tvS(id+10, &gen.CallE{Name: "H.Repoint"}),
+				tvS(id+11, &gen.Ref{Name: "H.Pn.X"}), tvS(id+12, &gen.Ref{Name: "H.Pn.S"}),
+				&gen.Assign{Target: "H.Pn.W", Op: "=", E: il(int64(r.Intn(100)))},
+				tvS(id+13, &gen.Ref{Name: "H.Pn.W"}),
 			}
 		case 0: // typed reads of injected data, incl. missing map keys
 			ru.key, ru.desc = "read", "typed reads of injected values"
